@@ -87,6 +87,7 @@ package poll
 //@ func New
 //@ props C18
 //@ abstract-calls ^(Listen|WithLabelValues|String)$
+//@ abstract-calls external
 //@ requires config != nil && metrics != nil && config.MaxConnections >= 0 && config.Size >= 0 && config.MaxConnections <= 1000000 && config.Size <= 1000000
 //@ ensures result1 == nil ==> result0 != nil && result0.worker != nil && result0.server != nil
 //@ ensures result1 == nil ==> chancap(result0.worker.disconnect) == config.MaxConnections && chancap(result0.worker.connect) == config.MaxConnections && result0.worker.connections.max == config.MaxConnections
